@@ -1,0 +1,13 @@
+//go:build verif
+
+package nfs
+
+import (
+	"github.com/mit-pdos/go-nfsd/fstxn"
+	"github.com/mit-pdos/go-nfsd/shrinker"
+)
+
+// Accessors for the verification harness (build tag verif).
+func (nfs *Nfs) VerifState() *fstxn.FsState { return nfs.fsstate }
+
+func (nfs *Nfs) VerifShrinker() *shrinker.ShrinkerSt { return nfs.shrinkst }
